@@ -321,11 +321,41 @@ pub fn run(tier: Tier, seed: u64) -> i32 {
                             }
                             let mut c = Case::new(&format!("V#{vi} W#{wi} placement {placement} shadow {shadow} header {header:?} {}", if ov { "Ov" } else { "Fw" }), prog.clone(), sigs.clone(), ov, menu.clone(), menu.clone(), 18);
                             c.continue_after_call_errors = true;
+                            // the caller looks at vars() after every item (a read-only call)
+                            c.collect_vars = shadow != 0 && (vi + wi) % 2 == 0;
                             cases.push(c);
                         }
                     }
                 }
             }
+        }
+    }
+    // a bidirectional signal is an output too: a declaration may read it (the driver reports it)
+    {
+        let sg = vec![Sig::inp("A", 4, 0), Sig::bidir("D", 4, V::Num(3)), Sig::out("Q", 4)];
+        let body = vec![
+            Stmt::Declare("V".into(), bin(BinOp::Add, name("D"), lit(1))),
+            Stmt::Declare("W".into(), bin(BinOp::Sub, name("Q"), name("D"))),
+            Stmt::Row(vec![l(1), l(2), Entry::X, Entry::X, Entry::X]),
+            Stmt::Row(vec![l(2), Entry::Z, l(3), l(4), Entry::X]),
+            Stmt::Let("D".into(), lit(9)),
+            Stmt::Row(vec![Entry::C, Entry::Paren(name("D")), Entry::X, Entry::X, l(0)]),
+        ];
+        let prog = Program { header: vec!["A".into(), "D".into(), "D_out".into(), "V".into(), "W".into()], body };
+        let mut m3 = vec![];
+        for dv in [V::Num(0), V::Num(5), V::Z] {
+            for qv in [V::Num(1), V::Num(7)] {
+                m3.push(MenuItem::ans(vec![("D".into(), dv), ("Q".into(), qv)]));
+                m3.push(MenuItem::ans(vec![("Q".into(), qv), ("D".into(), dv)]));
+            }
+        }
+        // (the layout is fixed by the first answer: two cases, one per order)
+        for order in 0..2 {
+            let menu: Vec<MenuItem> = m3.iter().skip(order).step_by(2).cloned().collect();
+            let mut c = Case::new(&format!("declarations over a bidirectional signal, driver order {order}"), prog.clone(), sg.clone(), true, menu.clone(), menu, 10);
+            c.continue_after_call_errors = true;
+            c.collect_vars = true;
+            cases.push(c);
         }
     }
     // far beyond the enumerated scope: 70 declarations
